@@ -49,6 +49,7 @@ type World struct {
 	factCache  map[string]*KindFacts
 	floorCache map[string][2]any
 	fail       *failInfo
+	tflow      *typeFlow
 }
 
 func goEnv() []string {
